@@ -82,7 +82,8 @@ def match_finding(findings, pid, sig):
         if f.get("property") != pid:
             continue
         m = f.get("match", {})
-        if all(jsonable(sig.get(k)) == v for k, v in m.items()):
+        # a list in `match` means "any of these specific values" (unless the signature value is that very list)
+        if all(jsonable(sig.get(k)) == v or (isinstance(v, list) and jsonable(sig.get(k)) in v) for k, v in m.items()):
             return f
     return None
 
